@@ -418,7 +418,18 @@ def _aca(rec, case, rng):
         sig = dict(sig, stopped_by='skipcount' if 'skip count' in why else ('tolerance' if 'tolerance' in why else ('maxiter' if 'aximum iteration' in why else 'unknown')))
         rec.count('aca3d_stop:' + sig['stopped_by'])
         if ok:
-            rec.check_close('aca', float(np.abs(tensor.asarray(X) - A).max()), 1e-8 * (np.abs(A).max() + 1), sig, c)
+            err = float(np.abs(tensor.asarray(X) - A).max()); bound = 1e-8 * (np.abs(A).max() + 1)
+            if not err <= bound:
+                # the known premature stop depends on the random fibres drawn: repeat with other draws; a deviation that comes back
+                # every time has another cause
+                again = []
+                for t in range(4):
+                    np.random.seed(1000 + t)
+                    with contextlib.redirect_stdout(io.StringIO()):
+                        ok2, X2 = guarded(rec, c, sig, lowrank.aca_3d, A, tol=1e-12, maxiter=60, verbose=0, lr=lr)
+                    again.append(bool(ok2 and float(np.abs(tensor.asarray(X2) - A).max()) > bound))
+                sig = dict(sig, reproducible=all(again))
+            rec.check_close('aca', err, bound, sig, c)
 
 def _greedy(rec, case, rng):
     from pyiga import tensor
